@@ -736,6 +736,8 @@ func runSurvive(e *ev.Env) {
 	})
 }
 
+var mappedStatus = map[int]bool{400: true, 405: true, 408: true, 413: true, 431: true, 500: true, 502: true}
+
 // vocabularyToken returns the first word of the error vocabulary (fixed order) found in raw.
 func vocabularyToken(raw []byte) string {
 	for _, t := range []string{"timeout", "Timeout", "exceeds", "too large", "unsupported", "cannot find", "error when reading", "small read buffer", "EOF", "reset by peer", "broken pipe", "GetOnly", "non-GET"} {
@@ -859,7 +861,8 @@ func surviveCase(e *ev.Env, c *ev.Case, o appOpts, reqs []*rq, raw []byte, mutat
 		if q.Class != "" && q.Expect != 0 {
 			e.Stat("class_"+q.Class, 1)
 			svSeen.class++
-			if tok := vocabularyToken(raw); r.Status != q.Expect && tok != "" {
+			// (only statuses the error mapping hands out: a handler that ran is another matter)
+			if tok := vocabularyToken(raw); r.Status != q.Expect && tok != "" && mappedStatus[r.Status] {
 				// the connection's bytes (fasthttp's error text quotes the read buffer) contain a
 				// word of the error vocabulary and the class is not answered as mapped: own
 				// signature, named after the first such word in a fixed order
